@@ -516,6 +516,12 @@ canary('c01-map-missing-value', 'C01', ENCF, """        encode_term_impl(buf, ke
     Ok(())""", 'WIRE:')
 canary('c01-numfree-field', 'C01', ENCF, "    temp_buf.put_u32(num_free);\n", "    let _ = num_free;\n    temp_buf.put_u32(fun.num_free);\n", 'WIRE:')
 canary('c01-ref-count-u8', 'C01', ENCF, "        buf.put_u8(NEWER_REFERENCE_EXT);\n        buf.put_u16(len);", "        buf.put_u8(NEWER_REFERENCE_EXT);\n        buf.put_u8(len as u8);", 'WIRE:')
+canary('c01-fun-old-index-integer-only', 'C01', 'crates/erltf/src/decoder.rs',
+       """        OwnedTerm::Integer(i) => u32::try_from(i).ok(),
+        OwnedTerm::BigInt(ref big) => u32_from_bigint(big),
+        _ => None,""",
+       """        OwnedTerm::Integer(i) => u32::try_from(i).ok(),
+        _ => None,""", 'nested-integer')
 canary('c01-nil-as-string-variant', 'C01', ENCF, "        OwnedTerm::String(s) => encode_string(buf, s),", "        OwnedTerm::String(s) => encode_atom_impl(buf, &Atom::new(s), cache),", 'FLOW:')
 
 # ---- C10 ----
